@@ -6,6 +6,7 @@ CONSTANTS
   LeaseIds = {1,2}
   MaxNow = 4
   MaxHist = 24
+  PathView = FALSE
   FullHist = TRUE
 INIT Init
 NEXT Next
